@@ -136,7 +136,20 @@ def check(run):
             texts.append(b[:cut])
             i = rng.randint(0, len(b))
             texts.append(b[:i] + rng.choice([".", "::", "(", "}", "let ", "\"", "\\\\"]) + b[i:])
+        # what an editor sees while a member or path is being typed: the text cut right after `x.` / `x.y` / `P::` / `P::Q`
+        # (no character after the cursor); the requests are placed at the end of the text and just before it
+        typing = []
+        for t in [small[0], small[1]] + base:
+            cuts = [m.end() for m in re.finditer(r"[A-Za-z_0-9\)\]]\.|[A-Za-z_0-9]::|[A-Za-z_0-9]\.[a-z_0-9]|::[A-Za-z]", t)]
+            if len(cuts) > 40:
+                cuts = rng.sample(cuts, 40)
+            typing += [t[:c] for c in cuts]
         cases = []
+        for t in typing:
+            ls = t.split("\n")
+            li, co = len(ls) - 1, len(ls[-1].encode())
+            qs = [(kind, li, c) for kind in ("dot", "colon", "hover") for c in (co, max(0, co - 1), co + 1)]
+            cases.append((t, qs))
         for t in texts:
             grid = positions_grid(t, 1 if len(t) < 400 else 7)
             if len(grid) > 400:
